@@ -235,7 +235,10 @@ class DataSaveable:
             data = self._data_with_axis(with_axis)
             io.savemat(file, {"data":data})
         else:
-            io.savemat(file, {"data":self.data})
+            # Matlab has no one-dimensional arrays; the number of dimensions
+            # is stored so that the original shape can be recovered
+            io.savemat(file, {"data":self.data, 
+                              "data_ndim":numpy.ndim(self.data)})
 
     
     def _loadMatlab(self, file, with_axis=None):
@@ -243,7 +246,11 @@ class DataSaveable:
         
         """
         self.set_data_writable()
-        _data = io.loadmat(file)["data"]
+        content = io.loadmat(file)
+        _data = content["data"]
+        if (with_axis is None) and ("data_ndim" in content):
+            if int(content["data_ndim"][0,0]) == 1:
+                _data = _data.reshape(-1)
         self.data = self._extract_data_with_axis(_data, with_axis)
         self.set_data_protected()
 
